@@ -144,6 +144,13 @@ where
         let mutex = self.inner.load_read_list()?;
 
         let hint = {
+            #[cfg(aranya_verif)]
+            crate::verif::point(
+                crate::verif::site::SHM_GEN_LOAD,
+                // SAFETY: we only take the address of an atomic field.
+                unsafe { mutex.inner_unsynchronized().generation.as_ptr() as usize },
+                0,
+            );
             // SAFETY: we only access an atomic field.
             let generation = unsafe {
                 mutex
@@ -218,6 +225,13 @@ where
         let mutex = self.inner.load_read_list()?;
 
         let hint = {
+            #[cfg(aranya_verif)]
+            crate::verif::point(
+                crate::verif::site::SHM_GEN_LOAD,
+                // SAFETY: we only take the address of an atomic field.
+                unsafe { mutex.inner_unsynchronized().generation.as_ptr() as usize },
+                0,
+            );
             // SAFETY: we only access an atomic field.
             let generation = unsafe {
                 mutex
@@ -263,5 +277,17 @@ where
         let mutex = self.inner.load_read_list()?;
         let list = mutex.lock().assume("poisoned")?;
         Ok(list.exists(id, None, Op::Any)?)
+    }
+}
+
+#[cfg(aranya_verif)]
+impl<CS> ReadState<CS>
+where
+    CS: CipherSuite,
+{
+    /// Takes an unsynchronized snapshot of the shared memory for
+    /// verification.
+    pub fn verif_snapshot(&self) -> crate::verif::ShmSnapshot {
+        self.inner.verif_snapshot()
     }
 }
